@@ -85,8 +85,8 @@ def ty_cpp(t):
 
 @spec()
 def igf_cpp(f):
-    """InstantiatedGlobalFunction.to_cpp: name<ns::Inst,...> with the identifier-safe instantiated names"""
-    return (f.original.name + '<' + ','.join(['::'.join(i.namespaces + [tn_iname(i)]) for i in f.instantiations]) + '>'
+    """callee spelling of an instantiated function template: name<C++ spelling of each template argument>"""
+    return (f.original.name + '<' + ','.join([tn_cpp(i) for i in f.instantiations]) + '>'
             if f.original.template else f.original.name)
 
 
